@@ -47,7 +47,7 @@ Chain == C("chain", <<R("r2", SG, 1, "a", "ctorerr", FALSE, <<P("S0")>>),
 \* keyed singleton S0/"k" and unkeyed transient S0; scoped S1 consuming both
 Keyed == C("keyed", <<Named(R("r1", SG, 0, "a", "ctorerr", FALSE, <<>>)),
                       R("r2", TR, 0, "b", "ctorerr", FALSE, <<>>),
-                      R("r3", SC, 1, "a", "ctorerr", TRUE, <<PK("S0"), P("S0")>>)>>)
+                      R("r3", SC, 1, "a", "ctorerr", TRUE, <<P("S0"), PK("S0")>>)>>)
 
 \* group g of S1: a singleton member and a transient member; scoped consumer S0; transient consumer S2
 Group == C("group", <<Grouped(R("r1", SG, 1, "a", "ctorerr", FALSE, <<>>)),
@@ -118,6 +118,14 @@ Builtin == C("builtin", <<R("r1", SG, 0, "a", "ctorerr", FALSE, B3),
 \* singleton instance value
 InstVal == C("instval", <<R("r1", SG, 0, "a", "inst", FALSE, <<>>),
                           R("r2", SC, 1, "a", "ctorerr", FALSE, <<P("S0")>>)>>)
+
+\* several instance values of ONE Go type: unkeyed, named, and two members of a group
+InstVals == C("instvals", <<R("r1", SG, 0, "a", "inst", FALSE, <<>>),
+                            Named(R("r2", SG, 0, "a", "inst", FALSE, <<>>)),
+                            Grouped(R("r3", SG, 1, "a", "inst", FALSE, <<>>)),
+                            Grouped(R("r4", SG, 1, "a", "inst", FALSE, <<>>)),
+                            R("r5", SC, 2, "a", "ctorerr", TRUE, <<P("S0"), PK("S0")>>),
+                            R("r6", SC, 3, "a", "ctorerr", TRUE, <<PG("S1")>>)>>)
 
 \* defect shapes (Build must refuse): cycle, cycle through a group, lifetime conflict, missing dependency
 Cycle2 == C("cycle2", <<R("r1", SC, 0, "a", "ctorerr", FALSE, <<P("S1")>>),
@@ -236,7 +244,7 @@ DiamondPOKG == C("diamondpokg", <<Named(R("r1", TR, 2, "a", "ctorerr", FALSE, <<
 CfgMore == {DiamondPO, DiamondPOKG, Alias2Transient, OptionalSing, GroupTransDeps, GroupMixedOK, AliasGroupAsym}
 
 Plain == {Basic, Chain, Keyed, Group, GroupScoped, GroupDeps, Multi, MultiTr, OutKN, OutKNSing, Alias1, Alias2,
-          Alias2Scoped, Diamond2, Optional, Inits, InitSing, Builtin, InstVal} \cup CfgForms \cup CfgMore \cup CfgRemoved
+          Alias2Scoped, Diamond2, Optional, Inits, InitSing, Builtin, InstVal, InstVals} \cup CfgForms \cup CfgMore \cup CfgRemoved
 Defective == {Cycle2, CycleGroup, Captive, CaptiveGroup, MissingDep, GroupMixedCaptive, GroupMixedCaptive2, CycleOptional, MissingKeyed}
              \cup CfgRemovedDefective
 
